@@ -65,7 +65,14 @@ class Rig(object):
         self.config._bus_conn = FakeBus()
         self.agent = m['agent'].Agent(self.config, bus_kwargs=dict(conn=None, object_path='/a'))
         self.out = []
-        self.cap = lambda data: self.out.append(bytes(data))
+        self.fail_on = set()       # 0-based indices of the hand-overs (per send request) on which the CL sender raises
+
+        def cap(data):
+            idx = len(self.out)
+            self.out.append(bytes(data))          # the CL has been handed the octets when it raises
+            if idx in self.fail_on:
+                raise IOError('CL sender refused hand-over %d' % idx)
+        self.cap = cap
         self.agent._cl_agent['none'] = FakeCL(self.cap)
         self.route = m['config'].TxRouteItem(eid_pattern=re.compile('.*'), next_nodeid='x', cl_type='none', mtu=mtu)
         self.config.tx_route_table.append(self.route)
@@ -147,10 +154,11 @@ class Rig(object):
             bundle = enc.Bundle(bytes(bundle))
         return m['util'].BundleContainer(bundle)
 
-    def send(self, spec, mtu, now_ms=None, as_source=None):
+    def send(self, spec, mtu, now_ms=None, as_source=None, fail_on=()):
         ''' one send request (the agent's clock reads DTN time `now_ms`); returns (list of byte strings handed to the CL, escaped class or None,
         escapes in idle callbacks) '''
         self.out = []
+        self.fail_on = set(fail_on)
         self.set_mtu(mtu)
         if now_ms is not None:
             self.clock_ms = now_ms
@@ -168,6 +176,7 @@ class Rig(object):
         except Exception as err:  # observable: exception class escaped
             esc = type(err).__name__
         idle_esc = self.drain()
+        self.fail_on = set()
         return list(self.out), esc, idle_esc
 
     def recv(self, data):
